@@ -8,6 +8,8 @@
 #include "mini_json.h"
 #include <fstream>
 #include <sstream>
+#include <functional>
+#include <complex>
 using namespace SimTK;
 using std::string;
 
@@ -24,6 +26,27 @@ template <class F, class F3> static void orders(std::ostringstream& js, const F&
     js << "],\"vstd\":[";      // the std::vector overload
     for (int k = 1; k <= nmax; ++k) js << (k > 1 ? "," : "") << num(f.calcDerivative(std::vector<int>(k, 0), xv));
     js << "]";
+}
+
+// C30: the root finder on the coefficients the spec expanded; every API variant that fits the degree and coefficient type
+template <class T> static string jroots(const std::vector<std::complex<T> >& r) {
+    std::ostringstream o; o << "["; for (size_t i = 0; i < r.size(); ++i) o << (i ? "," : "") << "[" << num(r[i].real()) << "," << num(r[i].imag()) << "]"; o << "]"; return o.str(); }
+template <class T> static void rootsFor(std::ostringstream& js, const mj::Value& c, const char* tag) {
+    typedef std::complex<T> C;
+    const int n = (int)c["re"].size() - 1; const bool real = c["real"].num() != 0;
+    std::vector<C> co(n + 1); for (int i = 0; i <= n; ++i) co[i] = C((T)c["re"][i].dbl(), (T)c["im"][i].dbl());
+    auto emit = [&](const char* api, std::function<std::vector<C>()> f) {
+        js << ",\"" << tag << "/" << api << "\":";
+        try { js << "{\"roots\":" << jroots<T>(f()) << "}"; } catch (const std::exception& e) { js << "{\"exc\":" << mj::quote(string(e.what()).substr(0, 200)) << "}"; }
+    };
+    if (real) {
+        if (n == 2) emit("Vec3", [&] { Vec<3, T> v(co[0].real(), co[1].real(), co[2].real()); Vec<2, C> r; PolynomialRootFinder::findRoots(v, r); return std::vector<C>{r[0], r[1]}; });
+        if (n == 3) emit("Vec4", [&] { Vec<4, T> v(co[0].real(), co[1].real(), co[2].real(), co[3].real()); Vec<3, C> r; PolynomialRootFinder::findRoots(v, r); return std::vector<C>{r[0], r[1], r[2]}; });
+        emit("Vector", [&] { Vector_<T> v(n + 1); for (int i = 0; i <= n; ++i) v[i] = co[i].real(); Vector_<C> r(n); PolynomialRootFinder::findRoots(v, r); std::vector<C> o(n); for (int i = 0; i < n; ++i) o[i] = r[i]; return o; });
+    }
+    if (n == 2) emit("Vec3c", [&] { Vec<3, C> v(co[0], co[1], co[2]); Vec<2, C> r; PolynomialRootFinder::findRoots(v, r); return std::vector<C>{r[0], r[1]}; });
+    if (n == 3) emit("Vec4c", [&] { Vec<4, C> v(co[0], co[1], co[2], co[3]); Vec<3, C> r; PolynomialRootFinder::findRoots(v, r); return std::vector<C>{r[0], r[1], r[2]}; });
+    emit("Vectorc", [&] { Vector_<C> v(n + 1); for (int i = 0; i <= n; ++i) v[i] = co[i]; Vector_<C> r(n); PolynomialRootFinder::findRoots(v, r); std::vector<C> o(n); for (int i = 0; i < n; ++i) o[i] = r[i]; return o; });
 }
 
 static string run(const mj::Value& c) {
@@ -50,6 +73,10 @@ static string run(const mj::Value& c) {
         js << "],\"argsize\":" << f->getArgumentSize();
         std::unique_ptr<Function> g(f->clone());       // a clone is the same function
         js << ",\"vclone\":" << num(g->calcValue(xv));
+    } else if (kind == "roots") {
+        js << "\"n\":" << (int)c["re"].size() - 1;
+        rootsFor<double>(js, c, "double");
+        if (c["float"].num()) rootsFor<float>(js, c, "float");
     } else if (kind == "sinus") {
         // a sin(w t + p): w = j*pi/2, t integer, p chosen so that w t + p is the lattice angle of the case
         const double th = std::atan2(4.0, 3.0); const double j = c["j"].dbl(), t = c["t"].dbl();
